@@ -153,5 +153,6 @@ func IsValid(id string) bool {
 			return false
 		}
 	}
-	return id != ""
+	// "_" is the blank identifier in Go: it can be declared but never referenced.
+	return id != "" && id != "_"
 }
